@@ -25,6 +25,7 @@ PRED = [E + "p1", E + "p2", E + "p3"]
 GRAPHS = [E + "g1", E + "g2", E + "g3"]
 INTS = ["1", "2", "3", "5", "10", "12"]
 STRS = ["a", "b", "zz"]
+ODD = ["it's", 'q"t', "b\\s", "a' AND ?b='b"]          # constants that need escaping in the optimizer's memo key
 VARS = ["a", "b", "c", "d", "e"]
 
 
@@ -137,8 +138,8 @@ class Printer:
             return "<%s>" % lexical
         if kind == "n":
             return lexical
-        q = '"' if not self.noise or self.rng.random() < 0.8 else "'"
-        return q + lexical + q
+        q = '"' if not self.noise or "'" in lexical or self.rng.random() < 0.8 else "'"
+        return q + lexical.replace("\\", "\\\\").replace(q, "\\" + q) + q
 
     def expr(self, e):
         w = self.ws
@@ -351,34 +352,6 @@ def has_not_over(e, bad):
     if e[0] == "not":
         return any(v in bad for v in expr_vars(e[1])) or has_not_over(e[1], bad)
     return has_not_over(e[1], bad) or has_not_over(e[2], bad)
-
-
-def has_apostrophe_constant(q):
-    """the class of C01/C02-memo-key-collision: a FILTER constant containing an apostrophe"""
-    found = [False]
-
-    def ex(e):
-        if e[0] == "cmp":
-            if e[3][0] == "c" and "'" in e[3][1]:
-                found[0] = True
-        elif e[0] == "not":
-            ex(e[1])
-        else:
-            ex(e[1])
-            ex(e[2])
-
-    def walk(e):
-        if e[0] in ("group", "union"):
-            for x in e[1]:
-                walk(x)
-        elif e[0] == "graph":
-            walk(e[2])
-        elif e[0] == "sub":
-            walk(e[1]["where"])
-        elif e[0] == "filter":
-            ex(e[1])
-    walk(q["where"])
-    return found[0]
 
 
 def classify(q):
@@ -855,6 +828,8 @@ class Gen:
         op = "=" if rng.random() < 0.5 else "!="
         if val is not None and rng.random() < 0.7:
             return ["cmp", op, V(v), C(val)]
+        if rng.random() < 0.08:
+            return ["cmp", op, V(v), C(rng.choice(ODD))]
         return ["cmp", op, V(v), C(rng.choice(SUBJ + INTS + STRS))]
 
     def expr(self, wit, scope_vars, depth=0):
@@ -1018,7 +993,7 @@ class Gen:
             k = rng.randrange(1, len(cols) + 1)
             q["proj"] = [["VAR", v, None] for v in rng.sample(cols, k)]
         if top and q["proj"] != "*" and not q["group_by"] and rng.random() < 0.03:
-            q["group_by"] = [v for _, v, _ in q["proj"]]        # GROUP BY without an aggregate (class group-by-without-aggregate)
+            q["group_by"] = [v for _, v, _ in q["proj"]]        # GROUP BY without an aggregate: one row per group (repaired by bc03712; only group keys are projected)
             self.count("group_by_no_aggregate")
         outc = columns(q)
         if rng.random() < 0.3:
